@@ -164,6 +164,17 @@ fn expect(life: Life, op: &Op, has_token: bool) -> Expect {
 
 // ---------------------------------------------------------------------------------------------
 
+/// Snapshot of an uninterrupted run (see `World::pure_snap`).
+pub struct PureSnap {
+    pub model: Model,
+    pub coord: ExternalActionCoordinatorV1,
+    pub log: (Vec<warp_core::causal_wal::WalFrame>, Vec<warp_core::causal_wal::WalTransactionCommit>),
+    pub accessors: [(String, String, String); 2],
+    pub seen_tok: [Option<String>; 2],
+    pub seen_grant: [Option<String>; 2],
+    pub seen_receipt: [Option<String>; 2],
+}
+
 #[derive(Default)]
 pub struct StepOut {
     pub viol: Vec<(String, Value)>,
@@ -1078,7 +1089,10 @@ impl<'a> World<'a> {
     /// Invariants of a quiescent state (after a completed op, or after recovery).
     fn check_state(&mut self, op: &Op) {
         let ctxs = format!("after:{}", op.class());
-        // (1) recover(store) == the live, incrementally advanced coordinator
+        // (1) recover(store) == the live, incrementally advanced coordinator (skipped right after a
+        // recovery, where the live coordinator *is* recover(store))
+        if matches!(op, Op::Fault(..) | Op::CrashRecover) {
+        } else {
         match ExternalActionCoordinatorV1::recover(&self.store) {
             Ok(rec) => {
                 if rec.observed_index().root_digest() != self.coord.observed_index().root_digest() {
@@ -1096,6 +1110,7 @@ impl<'a> World<'a> {
                 let k = ek(&e);
                 self.viol(format!("recovery-of-committed-history-failed:{k}:{ctxs}"), json!({"error": format!("{e:?}")}));
             }
+        }
         }
         // (2) recorded lifecycle == model, and exactly one record per taken step in the log
         let (frames, commits) = self.store.snapshot_pair();
@@ -1169,10 +1184,7 @@ impl<'a> World<'a> {
         // (6) after any stop: equal to the uninterrupted run over the committed prefix
         if self.had_interrupt {
             self.count("uninterrupted_projection_compared");
-            let mut p = World::new(self.fx);
-            for o in &self.pure.clone() {
-                p.step(o);
-            }
+            let p = self.pure_snap();
             if p.model != self.model {
                 self.viol(format!("MACHINERY:uninterrupted-projection-diverged:{ctxs}"), json!({"pure": format!("{:?}", p.model), "this": format!("{:?}", self.model)}));
             }
@@ -1181,29 +1193,24 @@ impl<'a> World<'a> {
             } else if p.coord != self.coord {
                 self.viol(format!("recovered-coordinator-differs-from-uninterrupted-run:{ctxs}"), json!({}));
             }
-            if p.store.snapshot_pair() != (frames, commits) {
+            if p.log != (frames, commits) {
                 self.viol(format!("recovered-log-differs-from-uninterrupted-run:{ctxs}"), json!({}));
             }
             for r in 0..2u8 {
                 let rid = self.rid(r);
-                let a = (
-                    format!("{:?}", p.coord.recorded_request(rid)),
-                    format!("{:?}", p.coord.claim_grant(rid)),
-                    format!("{:?}", p.coord.admitted_settlement(rid)),
-                );
                 let b = (
                     format!("{:?}", self.coord.recorded_request(rid)),
                     format!("{:?}", self.coord.claim_grant(rid)),
                     format!("{:?}", self.coord.admitted_settlement(rid)),
                 );
-                if a != b {
+                if p.accessors[r as usize] != b {
                     self.viol(format!("rederivable-grants-differ-from-uninterrupted-run:{ctxs}"), json!({"request": r}));
                 }
                 // and the grants the uninterrupted run actually handed out are the ones re-derived here
                 for (x, y, what) in [
-                    (p.seen.tok[r as usize].clone(), self.seen.tok[r as usize].clone(), "request-token"),
-                    (p.seen.grant[r as usize].clone(), self.seen.grant[r as usize].clone(), "claim-grant"),
-                    (p.seen.receipt[r as usize].clone(), self.seen.receipt[r as usize].clone(), "receipt"),
+                    (p.seen_tok[r as usize].clone(), self.seen.tok[r as usize].clone(), "request-token"),
+                    (p.seen_grant[r as usize].clone(), self.seen.grant[r as usize].clone(), "claim-grant"),
+                    (p.seen_receipt[r as usize].clone(), self.seen.receipt[r as usize].clone(), "receipt"),
                 ] {
                     if let (Some(x), Some(y)) = (x, y) {
                         if x != y {
@@ -1213,6 +1220,40 @@ impl<'a> World<'a> {
                 }
             }
         }
+    }
+
+    /// The uninterrupted run over the committed prefix: the committed lifecycle operations of this
+    /// history executed from genesis with no fault and no crash.  A pure function of `self.pure`,
+    /// so it is memoised across the whole exploration.
+    fn pure_snap(&self) -> std::sync::Arc<PureSnap> {
+        let key: String = self.pure.iter().map(|o| o.enc()).collect::<Vec<_>>().join(",");
+        if let Some(s) = self.fx.pure_cache.read().unwrap().get(&key) {
+            return s.clone();
+        }
+        let mut p = World::new(self.fx);
+        for o in &self.pure {
+            p.step(o);
+        }
+        let mut accessors: [(String, String, String); 2] = Default::default();
+        for r in 0..2u8 {
+            let rid = self.rid(r);
+            accessors[r as usize] = (
+                format!("{:?}", p.coord.recorded_request(rid)),
+                format!("{:?}", p.coord.claim_grant(rid)),
+                format!("{:?}", p.coord.admitted_settlement(rid)),
+            );
+        }
+        let snap = std::sync::Arc::new(PureSnap {
+            model: p.model.clone(),
+            coord: p.coord.clone(),
+            log: p.store.snapshot_pair(),
+            accessors,
+            seen_tok: p.seen.tok.clone(),
+            seen_grant: p.seen.grant.clone(),
+            seen_receipt: p.seen.receipt.clone(),
+        });
+        self.fx.pure_cache.write().unwrap().insert(key, snap.clone());
+        snap
     }
 
     pub fn step(&mut self, op: &Op) {
@@ -1235,7 +1276,11 @@ impl<'a> World<'a> {
             Op::CrashRecover => self.do_crash_recover(),
         }
         self.top_up();
-        if self.heavy {
+        // quiescent-state invariants: evaluated whenever the step may have changed anything (a
+        // refused / answered step was just verified to have changed nothing, and the state it
+        // started from was checked when it was first reached)
+        let may_have_changed = self.last_committed || matches!(op, Op::Fault(..) | Op::CrashRecover | Op::Observe) || !self.out.viol.is_empty();
+        if self.heavy && (may_have_changed || self.hist.len() <= 1) {
             self.check_state(op);
         }
     }
